@@ -33,6 +33,7 @@ type simTopic struct {
 }
 
 type SimNet struct {
+	openSubs int32 // core mode: subscriptions of the underlying pubsub API that were never closed
 	mu              sync.Mutex
 	cond            *sync.Cond
 	ids             []peer.ID
